@@ -52,6 +52,7 @@ class C28Trigger(Base):
         self.fact_owner: Dict[str, dict] = {}   # (kept when judgement of
         #                       the member itself stops: others depend on it)
         self.ran: Dict[str, Set[int]] = {}  # task id -> flows it ran in
+        self.fed_ever: Set[str] = set()     # took messages of a removed job
 
     # -- helpers -----------------------------------------------------------
     def valid(self, tid):
@@ -215,6 +216,7 @@ class C28Trigger(Base):
             # the re-spawned (waiting, nothing submitted yet) member takes
             # a message of a job its removed predecessor left behind
             rec['fed_by_old_job'].add(ev['id'])
+            self.fed_ever.add(ev['id'])
             self.n['waiting_member_fed_by_removed_job'] += 1
         if not ev.get('transient'):
             p, n = split_id(ev['id'])
@@ -333,7 +335,9 @@ class C28Trigger(Base):
                    f'(flow {rec["flow"]})', {'task': t, 'trigger_it':
                                              rec['it']})
         if tid in rec['live_start'] and not retry:
-            self.v('live-start-member-resubmitted',
+            self.v('live-start-member-resubmitted' + (
+                ':fed-by-messages-of-its-removed-job'
+                if tid in self.fed_ever else ''),
                    f'{tid} had a live job '
                    f'({rec["before"][tid]["status"]}) when the group '
                    f'{sorted(rec["group"])} was triggered, yet it was '
